@@ -4,6 +4,7 @@ package main
 
 import (
 	"fmt"
+	"os"
 	"go/constant"
 	"go/token"
 	"go/types"
@@ -34,6 +35,7 @@ type Obligation struct {
 	Query  string
 	Inputs map[string]Val // named input values for replay
 	replay *replayInfo
+	batched bool
 	inVals []uint64
 	inOk   []bool
 	clause *Clause
@@ -248,6 +250,9 @@ func (e *Engine) oblige(st *State, kind, name string, goal *Term, pos token.Pos,
 		o.Status = "trivial"
 	} else {
 		o.PC = append([]*Term(nil), st.pc...)
+	}
+	if os.Getenv("GOVC_DEBUG") != "" && !o.Trivial {
+		fmt.Printf("  oblige %s trace=%v goal=%s\n", o.Name, st.trace, goal)
 	}
 	e.obls = append(e.obls, o)
 	st.assume(goal)
@@ -759,6 +764,18 @@ func (e *Engine) step(st *State, fr *Frame, in ssa.Instruction) {
 			e.jump(st, fr, fb)
 			return
 		}
+		// condition already decided by the path condition (same test evaluated before on this path)
+		nc := Not(c)
+		for _, p := range st.pc {
+			if p == c {
+				e.jump(st, fr, tb)
+				return
+			}
+			if p == nc {
+				e.jump(st, fr, fb)
+				return
+			}
+		}
 		other := st.clone()
 		other.assume(Not(c))
 		other.trace = append(other.trace, fmt.Sprintf("b%d:F", fr.blk.Index))
@@ -813,7 +830,7 @@ func (e *Engine) zeroInit(st *State, pi *PtrInfo, T types.Type) {
 	// only needed when the cell arrays are not the pristine H0 (where fresh refs read as zero)
 	st.walk(pi, T, func(key string, idx []*Term, s *Sort) {
 		if a, ok := st.mem[key]; ok {
-			if a.Op == OVar && strings.HasPrefix(a.Name, "H0|") {
+			if pristineBase(a) {
 				return
 			}
 			st.mem[key] = Store(a, idxTerm(idx), zeroOf(s))
@@ -827,6 +844,9 @@ func (e *Engine) nilCheck(st *State, p Val, in ssa.Instruction) {
 		return
 	}
 	if isFreshRef(enc) {
+		return
+	}
+	if enc.Op == OVar && strings.HasPrefix(enc.Name, "ref!global!") {
 		return
 	}
 	e.oblige(st, "nilderef", e.siteName("nilderef", in), Not(Eq(enc, BVConst(0, 64))), in.Pos(), nil, "")
@@ -1426,7 +1446,7 @@ func (e *Engine) zeroSlice(st *State, et types.Type, ref *Term) {
 	pi := &PtrInfo{Ref: ref, Root: arrRoot(et), Path: []Step{{Idx: BVConst(0, 64)}}, Elem: et}
 	st.walk(pi, et, func(key string, idx []*Term, s *Sort) {
 		if a, ok := st.mem[key]; ok {
-			if a.Op == OVar && strings.HasPrefix(a.Name, "H0|") {
+			if pristineBase(a) {
 				return
 			}
 			// havoc'd array: restore zero region for this ref via an uninterpreted "zero-fill"
@@ -1574,7 +1594,7 @@ func (e *Engine) mapReset(st *State, T types.Type, ref *Term) {
 	for _, k := range st.memKeys() {
 		if strings.HasPrefix(k, root+"|") {
 			a := st.mem[k]
-			if a.Op == OVar && strings.HasPrefix(a.Name, "H0|") {
+			if pristineBase(a) {
 				continue
 			}
 			st.mem[k] = App("zerofill!"+a.S.key(), a.S, a, ref)
@@ -1768,4 +1788,13 @@ func (e *Engine) selectInstr(st *State, fr *Frame, x *ssa.Select) {
 		}
 	}
 	mk(st, 0)
+}
+
+// pristineBase: the array is a chain of stores over the initial heap, where memory at references allocated later
+// reads as zero; no explicit zero-initialisation of a new object is needed.
+func pristineBase(a *Term) bool {
+	for a.Op == OStore {
+		a = a.Args[0]
+	}
+	return a.Op == OVar && strings.HasPrefix(a.Name, "H0|")
 }
